@@ -39,6 +39,11 @@ def K(e, sub=None):
     return F.key(unwrap(F.expand(e, sub) if sub else e))
 
 
+def _branch(site):
+    """The branch a site lies in (the enclosing conditions by position and polarity, whatever was assigned since)."""
+    return [(g.line, g.kind, g.pol) for g in site.guards if g.kind in ("if", "sc", "case")]
+
+
 def check(ctx):
     P = ctx.program(UNITS)
     cg = callgraph.load_all()
@@ -136,7 +141,8 @@ def check(ctx):
     ctx.ob("GetAncestor/loop", "LOOP", "the walk continues exactly while the walk height is above the requested height", okl, ga.where)
     if loops:
         body = sub_function(ga, loops[0]["b"], "walk")
-        bsub = local_defs(body, P)
+        # heightSkip = GetSkipHeight(heightWalk) is read (test, new height) before heightWalk is overwritten in the same iteration
+        bsub = local_defs(body, P, allow_overwritten=True)
         wp = sites(body, lambda e: e[0] == "b" and e[1] == "=" and match(["local", "pindexWalk"], e[2]), P)
         ctx.floor("GetAncestor pointer moves", len(wp), 2)
         for s in wp:
@@ -144,7 +150,7 @@ def check(ctx):
             # the paired height update in the same branch
             sib = [x for x in sites(body, lambda e: (e[0] == "b" and e[1] in ASSIGN_OPS and match(["local", "heightWalk"], e[2])) or
                                     (e[0] == "u" and e[1] in ("--", "post--") and match(["local", "heightWalk"], e[2])), P)
-                   if F.fshow(x.formula(bsub)) == F.fshow(s.formula(bsub))]
+                   if _branch(x) == _branch(s)]
             if tgt == "pindexWalk.pskip":
                 ok = len(sib) == 1 and sib[0].expr[0] == "b" and F.key(F.expand(sib[0].expr[3], bsub)) == "GetSkipHeight(heightWalk)"
                 own = F.mk_and([g.formula(bsub) for g in s.guards if g.kind in ("if", "sc")])
@@ -196,5 +202,5 @@ def check(ctx):
     ctx.ob("LocatorEntries/entries", "LOOP", "every visited block (the start first) is recorded before stepping back, and the walk stops only after genesis was recorded", bool(ok) and bool(okb), le.where)
     st_ = sites(le, call_to("CBlockIndex::GetAncestor"), P)
     defs = local_defs(le, P)
-    ok = len(st_) == 1 and F.key(F.expand(call_args(st_[0].expr)[0], {k: v for k, v in naming(sub_function(le, lw[0]["b"], "step"), P).items()})) in ("std::max(index.nHeight - step, 0)", "std::max(0, index.nHeight - step)") if lw else False
+    ok = len(st_) == 1 and F.key(F.expand(call_args(st_[0].expr)[0], {k: v for k, v in naming(sub_function(le, lw[0]["b"], "step"), P, allow_overwritten=True).items()})) in ("std::max(index.nHeight - step, 0)", "std::max(0, index.nHeight - step)") if lw else False
     ctx.ob("LocatorEntries/step", "PROVENANCE", "the next entry is the ancestor at max(height - step, 0)", ok, le.where)
